@@ -52,6 +52,9 @@ pub fn matrix_configs(thorough: bool) -> Vec<EpCfg> {
                 c.alph = session_alph(ver == Some(Ver::V5), 2);
                 c.alph.second_connack = true;
                 c.alph.second_connect = true;
+                // ... including right behind the peer's own DISCONNECT, before the application closed
+                c.alph.peer_disconnect = true;
+                c.alph.after_disconnect = true;
                 if !thorough {
                     c.alph.pub_q = vec![1];
                     c.alph.peer_acks = vec![AckKind::Puback];
@@ -162,6 +165,7 @@ fn bisim_cfgs(ver: Ver, thorough: bool) -> (EpCfg, EpCfg) {
             peer_disconnect: true,
             peer_auth: ver == Ver::V5,
             second_connect: true,
+            after_disconnect: true,
             timers: true,
             spontaneous_close: true,
             pub_any_status: true,
